@@ -140,10 +140,10 @@ def numeral (s : List Nat) : Option Int := signedMagnitude (s.dropWhile isSpace)
 
 /-- what the property allows as the outcome `(stored bits, consumed)` of an accepted text conversion:
     the consumed prefix is a numeral of an in-range number which the stored object denotes (query mode: nothing is
-    stored), or it is blank and nothing is stored -/
+    stored), or the whole text is blank, nothing is consumed and nothing is stored ("no value") -/
 def TextOK (tgt : Ty) (s : List Nat) (d : Bool) (o : Option Nat) (n : Nat) : Prop :=
   n ≤ s.length ∧
-  ((o = none ∧ (s.take n).all isSpace = true) ∨
+  ((o = none ∧ n = 0 ∧ s.all isSpace = true) ∨
    (∃ v, numeral (s.take n) = some v ∧ inRange tgt v ∧
       ((d = true ∧ ∃ bits, o = some bits ∧ denote tgt bits = v) ∨ (d = false ∧ o = none))))
 
